@@ -17,6 +17,7 @@ pub enum Script {
     Ub, // upload, blksize 1024, 2 blocks
     D1, // download, 1 block (3-step scripts for K = 3 are D1/U1)
     U1, // upload, 1 block
+    Da, // download of a 2-block file that the CLIENT aborts with an ERROR after the first block
 }
 
 impl Script {
@@ -28,6 +29,7 @@ impl Script {
             Script::Ub => "Ub",
             Script::D1 => "D1",
             Script::U1 => "U1",
+            Script::Da => "Da",
         }
     }
     fn from(s: &str) -> Script {
@@ -37,6 +39,7 @@ impl Script {
             "U2" => Script::U2,
             "Ub" => Script::Ub,
             "D1" => Script::D1,
+            "Da" => Script::Da,
             _ => Script::U1,
         }
     }
@@ -48,6 +51,7 @@ impl Script {
             Script::Ub => 3,
             Script::D1 => 2,
             Script::U1 => 2,
+            Script::Da => 2,
         }
     }
     fn is_upload(&self) -> bool {
@@ -64,6 +68,7 @@ fn file_for(script: Script, variant: usize) -> (String, Vec<u8>) {
         Script::U2 => (format!("u2_{variant}"), 700),
         Script::Ub => (format!("ub_{variant}"), 1500),
         Script::U1 => (format!("u1_{variant}"), 90),
+        Script::Da => (format!("da_{variant}"), 600),
     };
     let salt = 500 + variant as u64 * 7 + len as u64;
     (name, content(len, salt))
@@ -106,7 +111,8 @@ impl Cl {
         let s = self.step;
         let o = |a: &str, b: &str| (a.to_string(), b.to_string());
         let (to_listener, bytes): (bool, Vec<u8>) = match (self.script, s) {
-            (Script::D2, 0) | (Script::D1, 0) => (true, rc::request(false, self.name.as_bytes(), &[])),
+            (Script::D2, 0) | (Script::D1, 0) | (Script::Da, 0) => (true, rc::request(false, self.name.as_bytes(), &[])),
+            (Script::Da, _) => (false, rc::error(0, "client gives up")),
             (Script::Dw, 0) => (true, rc::request(false, self.name.as_bytes(), &[o("blksize", "8"), o("windowsize", "2")])),
             (Script::U2, 0) | (Script::U1, 0) => (true, rc::request(true, self.name.as_bytes(), &[])),
             (Script::Ub, 0) => (true, rc::request(true, self.name.as_bytes(), &[o("blksize", "1024")])),
@@ -136,7 +142,7 @@ impl Cl {
     fn replies_expected(&self) -> usize {
         let last = self.step + 1 == self.script.steps();
         match self.script {
-            Script::D2 | Script::D1 => if last { 0 } else { 1 },
+            Script::D2 | Script::D1 | Script::Da => if last { 0 } else { 1 },
             Script::Dw => match self.step { 0 => 1, 1 => 2, 2 => 1, _ => 0 },
             _ => 1,
         }
@@ -150,7 +156,7 @@ impl Cl {
         for (i, b) in replies.iter().enumerate() {
             let p = rc::decode(b);
             let ok = match (self.script, s, &p) {
-                (Script::D2, _, Ok(RPacket::Data { block, data })) | (Script::D1, _, Ok(RPacket::Data { block, data })) => {
+                (Script::D2, _, Ok(RPacket::Data { block, data })) | (Script::D1, _, Ok(RPacket::Data { block, data })) | (Script::Da, _, Ok(RPacket::Data { block, data })) => {
                     self.got.extend_from_slice(data);
                     *block as usize == s + 1
                 }
@@ -384,6 +390,11 @@ fn run_one(srv: &Srv, cfg: &SrvCfg, scripts: &[Script], same_file: bool, order: 
             if stored.as_deref() != Some(&c.body[..]) {
                 viol.push(("upload-content".into(), format!("client {i} ({}): stored file has {:?} bytes, payload {}", c.script.name(), stored.map(|s| s.len()), c.body.len())));
             }
+        } else if c.script == Script::Da {
+            // aborted by its own client: only the first block was fetched
+            if c.got[..] != c.body[..512] {
+                viol.push(("download-content".into(), format!("client {i} (Da): the first block differs from its file")));
+            }
         } else if c.got != c.body {
             viol.push(("download-content".into(), format!("client {i} ({}): received {} bytes that differ from its {}-byte file", c.script.name(), c.got.len(), c.body.len())));
         }
@@ -479,6 +490,9 @@ pub fn cell(spec: &Value) -> Value {
     if spec["blocking"].as_bool().unwrap_or(false) {
         return blocking_cell(spec, &cfg, &srv);
     }
+    if let Some(n) = spec["many"].as_u64() {
+        return many_cell(spec, &cfg, n as usize);
+    }
     let scripts: Vec<Script> = spec["scripts"].as_array().unwrap().iter().map(|s| Script::from(s.as_str().unwrap())).collect();
     let same_file = spec["same_file"].as_bool().unwrap_or(false);
     let intr_mode = spec["intruder"].as_str().unwrap_or("none"); // none | all
@@ -544,6 +558,93 @@ pub fn cell(spec: &Value) -> Value {
     }
     c.add_extra("distinct_traces", outcomes.len() as u64);
     c.trim_violations(3);
+    c.to_json()
+}
+
+/// One transfer is held open while N OTHER endpoints (distinct loopback addresses) each complete a one-block download on the
+/// same server instance; then the held transfer continues. Whatever the server keeps per endpoint, a live transfer must
+/// survive any number of other clients coming and going.
+fn many_cell(spec: &Value, cfg: &SrvCfg, n: usize) -> Value {
+    let mut c = Counters::default();
+    let srv = match server_fresh(cfg) {
+        Ok(s) => s,
+        Err(e) => return json!({"machinery_error": format!("server start: {e}")}),
+    };
+    let vbody = content(1000, 881);
+    let _ = std::fs::write(format!("{}/many_v", srv.send_dir), &vbody);
+    let _ = std::fs::write(format!("{}/many_s", srv.send_dir), b"s");
+    let mut viol: Vec<(String, String)> = vec![];
+    let mut v = Client::new(srv.addr);
+    v.unguarded = true;
+    // a long interval so that the held transfer does not run out of retries while the others are served
+    v.to_server(&rc::request(false, b"many_v", &[("timeout".to_string(), "30".to_string())]));
+    let mut got: Vec<u8> = vec![];
+    let mut ok = matches!(v.recv_wait(BACKSTOP).map(|(b, _)| rc::decode(&b)), Some(Ok(RPacket::Oack(_))));
+    if ok {
+        v.to_peer(&rc::ack(0));
+        match v.recv_wait(BACKSTOP).map(|(b, _)| rc::decode(&b)) {
+            Some(Ok(RPacket::Data { block: 1, data })) => got.extend_from_slice(&data),
+            _ => ok = false,
+        }
+    }
+    if !ok {
+        return json!({"machinery_error": "many-endpoints cell: the victim's download did not start"});
+    }
+    let mut served = 0usize;
+    let mut buf = vec![0u8; 600];
+    let req = rc::request(false, b"many_s", &[]);
+    for i in 0..n {
+        // distinct endpoints: 127.(1 + i / 60000).x.y with an OS-chosen port
+        let local = format!("127.{}.{}.{}:0", 1 + i / 60000, (i / 250) % 240, 1 + i % 250);
+        let Ok(s) = std::net::UdpSocket::bind(&local) else { continue };
+        let _ = s.set_read_timeout(Some(Duration::from_millis(1500)));
+        let _ = s.send_to(&req, srv.addr);
+        if let Ok((k, from)) = s.recv_from(&mut buf) {
+            if let Ok(RPacket::Data { block: 1, .. }) = rc::decode(&buf[..k]) {
+                let _ = s.send_to(&rc::ack(1), from);
+                served += 1;
+            }
+        }
+    }
+    c.transitions += 3 * n as u64;
+    // the held transfer goes on
+    v.to_peer(&rc::ack(1));
+    let t0 = Instant::now();
+    let mut done = false;
+    while t0.elapsed() < BACKSTOP {
+        match v.recv_wait(Duration::from_millis(50)).map(|(b, _)| rc::decode(&b)) {
+            Some(Ok(RPacket::Data { block: 2, data })) => {
+                got.extend_from_slice(&data);
+                v.to_peer(&rc::ack(2));
+                done = true;
+                break;
+            }
+            Some(Ok(RPacket::Data { block: 1, .. })) => {} // a retransmission that was already on its way
+            Some(other) => {
+                viol.push(("held-transfer-broken".into(), format!("after {served} other endpoints had completed a download, the held transfer's ACK(1) was answered with {:?}", other.map(|p| format!("{:?}", p).chars().take(60).collect::<String>()))));
+                break;
+            }
+            None => {}
+        }
+    }
+    if viol.is_empty() && (!done || got != vbody) {
+        viol.push(("held-transfer-broken".into(), format!("after {served} other endpoints had completed a download, the held transfer did not continue (completed={done}, {} of {} bytes)", got.len(), vbody.len())));
+    }
+    if served * 10 < n * 9 {
+        c.machinery_errors.push(format!("many-endpoints cell: only {served} of {n} endpoints could be served"));
+    }
+    c.executions = 1;
+    c.states = 1;
+    c.nontrivial = 1;
+    c.add_extra("other_endpoints_served_while_a_transfer_was_held", served as u64);
+    c.trace_hashes.insert(fnv64(format!("many{n}{}", cfg.single).as_bytes()));
+    c.samples.push(json!({"srv": cfg.brief(), "family": "many endpoints", "other_endpoints": n, "served": served}));
+    for (clause, what) in viol {
+        c.violations.push(Violation { property: "C12".into(), clause, facts: facts(&[("single", json!(cfg.single))]), what: format!("[{}] {}", cfg.brief(), what), replay: json!({"engine": "e2_c12", "spec": spec}), weight: 60 });
+    }
+    if !quiesce() {
+        c.machinery_errors.push("server not quiescent at the end of the many-endpoints cell".into());
+    }
     c.to_json()
 }
 
@@ -686,6 +787,12 @@ pub fn check(tier: Tier) -> Outcome {
             }
         }
         cells.push(json!({"srv": s.to_json(), "blocking": true}));
+        // one transfer held open while many other endpoints come and go (thorough: more than 2^16 of them)
+        cells.insert(0, json!({"srv": s.to_json(), "many": if tier == Tier::Quick { 1500 } else { 70000 }}));
+        // a client that aborts its own download with an ERROR, interleaved with the other scripts
+        for other in ["Ub", "Dw", "U2"] {
+            cells.push(json!({"srv": s.to_json(), "scripts": ["Da", other], "same_file": false, "intruder": "none"}));
+        }
         // the listener bound to :: (dual-stack), the clients on IPv4: endpoints appear as ::ffff:127.0.0.1:port
         {
             let mut d = s.clone();
@@ -707,7 +814,7 @@ pub fn check(tier: Tier) -> Outcome {
     let res = run_cells("c12", cells, &crate::pool_opts(tier));
     let mut out = Outcome::new("C12", "model_checking");
     out.absorb(res, n);
-    out.rule = "client scripts (each step = one datagram and its awaited replies): D2 = 2-block lock-step download, Dw = download with blksize 8 / windowsize 2, U2 = 2-block upload, Ub = upload with blksize 1024, D1/U1 = 1-block transfers. All interleavings of the steps of K = 2 scripts for all 10 unordered pairs (same-file and different-file downloads) and of K = 3 short scripts, in single-port and multi-port mode (two pairs also with the listener on the dual-stack address :: and IPv4 clients); plus one intruder datagram (ACK, DATA, ERROR, OACK, oversize and truncated datagrams, a refused request, from a foreign socket, to the listening port or to the victim's transfer port; in single-port mode also from another loopback address that uses the victim's own port number) inserted at every position of every interleaving; thorough additionally re-issues adjacent steps of different clients as overlapped pairs; plus a request whose file operation blocks (named pipe) at every position of another client's download, with a third endpoint's new request right behind it. Oracle: per-client byte identity, source-port discipline (single-port: only the listening port; multi-port: one distinct ephemeral port per transfer), ERROR to the intruder, no leak, no extra datagrams. Every execution is non-trivial (completes >= 2 transfers). states = executions, transitions = datagrams sent.".into();
+    out.rule = "client scripts (each step = one datagram and its awaited replies): D2 = 2-block lock-step download, Dw = download with blksize 8 / windowsize 2, U2 = 2-block upload, Ub = upload with blksize 1024, D1/U1 = 1-block transfers, Da = a 2-block download that its own client aborts with an ERROR after the first block (paired with Ub, Dw, U2). All interleavings of the steps of K = 2 scripts for all 10 unordered pairs (same-file and different-file downloads) and of K = 3 short scripts, in single-port and multi-port mode (two pairs also with the listener on the dual-stack address :: and IPv4 clients); plus one intruder datagram (ACK, DATA, ERROR, OACK, oversize and truncated datagrams, a refused request, from a foreign socket, to the listening port or to the victim's transfer port; in single-port mode also from another loopback address that uses the victim's own port number) inserted at every position of every interleaving; thorough additionally re-issues adjacent steps of different clients as overlapped pairs; plus one transfer held open while 1500 (thorough 70000) other endpoints on distinct loopback addresses each complete a download on the same server instance; plus a request whose file operation blocks (named pipe) at every position of another client's download, with a third endpoint's new request right behind it. Oracle: per-client byte identity, source-port discipline (single-port: only the listening port; multi-port: one distinct ephemeral port per transfer), ERROR to the intruder, no leak, no extra datagrams. Every execution is non-trivial (completes >= 2 transfers). states = executions, transitions = datagrams sent.".into();
     out.assumptions = vec!["the server's internal thread schedule is the OS's; the driver keeps one datagram in flight (two for overlapped pairs)".into()];
     out
 }
